@@ -73,8 +73,8 @@ LEAN_MODULES = ['Mistral.Props.C05', 'Mistral.Props.C05Causal', 'Mistral.Props.C
 
 def correspond(ctx):
     from vlib import par
-    par.run_parallel(ctx, 'harness.ctx_stream', 'run_chunk', [{'n_histories': ctx.n(150, 4000)}] * 14)
-    par.run_parallel(ctx, 'harness.flow_stream', 'run_chunk', [{'n_programs': ctx.n(25, 600)}] * 14)
+    par.run_parallel(ctx, 'harness.ctx_stream', 'run_chunk', [{'n_histories': ctx.n(150, 2500)}] * 14)
+    par.run_parallel(ctx, 'harness.flow_stream', 'run_chunk', [{'n_programs': ctx.n(25, 400)}] * 14)
 
 
 def search(ctx):
